@@ -412,7 +412,7 @@ func (k *cliCase) subsites() {
 	}
 	if neg || r.Chance(0.3) {
 		f := filepath.Join(k.dir, "sites.txt")
-		os.WriteFile(f, []byte(strings.Join(itoas(sites), "\n")+"\n"), 0644)
+		os.WriteFile(f, []byte(strings.Join(siteFileLines(r, sites), "\n")+"\n"), 0644)
 		args = append(args, "--sitefile", f)
 		c.Count("cli-subsites:sitefile")
 	} else {
@@ -703,4 +703,19 @@ func cliWitness(c *mon.Case, which int) {
 			k.compareFile("subsites", run, out, rowsOf("s1", "CGA", "s2", "CGA"))
 		}
 	}
+}
+
+// siteFileLines spells the positions of a site file: plain decimals or, as a numbered list exported by a
+// spreadsheet would be, padded with zeros (decimal numbers all the same: 010 is ten).
+func siteFileLines(r *gen.Rand, sites []int) []string {
+	out := itoas(sites)
+	if r.Chance(0.4) {
+		w := r.PickInt([]int{3, 4, 6})
+		for i, v := range sites {
+			if v >= 0 {
+				out[i] = fmt.Sprintf("%0*d", w, v)
+			}
+		}
+	}
+	return out
 }
